@@ -23,7 +23,8 @@ RULE = ('Differential Python <-> JavaScript (node driver requiring <repo>/rbql-j
         'generator written by each writer (bytes compared) and read by the other reader; (e) random long Unicode lines / files; (f) language-neutral select '
         'lists x header/no-header (incl. hostile column names) -> output header and error class from both engines. Oracle = equality of fields + warning '
         'flag, quoted text, records, warning sets (texts), error class + message, headers. Non-trivial = input containing a quote or a line break; '
-        'enumerated inputs are distinct by construction.')
+        'enumerated inputs are distinct by construction.'
+        ' Later additions: delimiters containing / starting with a space, big files, hostile header names incl. apostrophes and mixed-case AS.')
 ASSUMPTIONS = ['warning order is not compared', 'writer warnings are not compared (the property speaks of reader warnings)', 'lone surrogates are never generated (JSON transport)']
 
 SINGLE = [',', ';', '\t', '|', ' ']
